@@ -416,7 +416,7 @@ func authValid(cs *ClientSpec, variant string) bool {
 	if cs.Public {
 		// public clients are identified without a secret: whatever secret accompanies the id is irrelevant
 		switch variant {
-		case "none", "unknown_client", "bad_urlencoding":
+		case "none", "unknown_client", "bad_urlencoding", "as_other":
 			return false
 		case "split":
 			variant = "ok"
@@ -453,6 +453,9 @@ func authValid(cs *ClientSpec, variant string) bool {
 
 // authOK: authValid plus the private_key_jwt assertion variants (which need the run's clock).
 func (r *Run) authOK(cs *ClientSpec, variant string) bool {
+	if cs != nil && r.W.K.DenyClient != "" && r.W.K.DenyClient == cs.ID {
+		return false // the operator's client-authentication strategy refuses this client at every endpoint that authenticates clients
+	}
 	if strings.HasPrefix(variant, "assert:") {
 		if cs == nil || !cs.OIDC || cs.AuthMethod != "private_key_jwt" {
 			return false
@@ -516,6 +519,17 @@ func (r *Run) applyAuth(cs *ClientSpec, variant string, form url.Values) *Basic 
 		if secret == cs.Secret {
 			secret = "not-" + cs.Secret
 		}
+	case "as_other":
+		// valid credentials of ANOTHER confidential client in the Authorization header, this client's id in the body: the caller
+		// proved to be the other client, not this one - nothing may be processed in this client's name
+		for _, o := range r.W.K.Clients {
+			if o.ID != cs.ID && !o.Public && o.Secret != "" && (!o.OIDC || o.AuthMethod == "client_secret_basic") {
+				form.Set("client_id", cs.ID)
+				return &Basic{User: o.ID, Pass: o.Secret}
+			}
+		}
+		form.Set("client_id", cs.ID)
+		return &Basic{User: cs.ID, Pass: "no-other-confidential-client"}
 	case "none":
 		return nil
 	case "unknown_client":
